@@ -20,6 +20,7 @@ import (
 	"strconv"
 	"strings"
 	"sync"
+	"syscall"
 	"time"
 
 	tls "github.com/refraction-networking/utls"
@@ -76,6 +77,8 @@ func spawn2(bin string, args []string, lifetime time.Duration, wantStdin, split 
 	cmd := exec.CommandContext(ctx, bin, args...)
 	cmd.Env = opensslEnv()
 	cmd.WaitDelay = 2 * time.Second
+	// should the harness itself be killed (runner timeout), the kernel kills the child with it
+	cmd.SysProcAttr = &syscall.SysProcAttr{Pdeathsig: syscall.SIGKILL}
 	pr, pw, err := os.Pipe()
 	if err != nil {
 		cancel()
